@@ -404,6 +404,29 @@ def _decide(ctx: Ctx, out: Collector) -> None:
             problems.append(f'two one-of parameters with the same candidates give {len(_syn(graph))} synthetic node(s)')
     if not good:
         problems.append(f'two one-of parameters with the same candidates: {summ}')
+    # the same candidates in another order are another declaration: every parameter gets its candidates in its own order
+    for two_consumers in (False, True):
+        if two_consumers:
+            top = node('O', [('u', mk.input(node('A', [('p', mk.oneof([g, g2]))]))), ('w', mk.input(node('B', [('q', mk.oneof([g2, g]))])))])
+            consumers = {'p': 'id:A', 'q': 'id:B'}
+        else:
+            top = node('O', [('p', mk.oneof([g, g2])), ('q', mk.oneof([g2, g]))])
+            consumers = {'p': 'id:O', 'q': 'id:O'}
+        what = 'two one-of parameters' + (' of two consumers' if two_consumers else '') + ' naming the same candidates in different orders'
+        good, summ = _built(ctx, node('I'), top)
+        for graph, node_map, dag in good:
+            syn = _syn(graph)
+            orders = {}
+            for h in syn:
+                lst = next((list(v) for v in graph.attrs['nodes'][h].values() if isinstance(v, (list, tuple))), None)
+                for pname, cons_ in consumers.items():
+                    if pname in graph.attrs['edges'].get((h, cons_), {}).values():
+                        orders[pname] = lst
+            if orders.get('p') != ['id:G', 'id:G2'] or orders.get('q') != ['id:G2', 'id:G']:
+                problems.append(f'{what}: p is resolved over {orders.get("p")}, q over {orders.get("q")} (declared [G, G2] and [G2, G]; '
+                                f'{len(syn)} synthetic node(s))')
+        if not good:
+            problems.append(f'{what}: {summ}')
     shared = mk.switch(node('S'), [('a', node('G')), ('b', node('G2'))], 'choice')
     good, summ = _built(ctx, node('I'), node('O', [('p', mk.input(node('A', [('x', shared)]))), ('q', mk.input(node('B', [('y', shared)])))]))
     for graph, node_map, dag in good:
